@@ -8,12 +8,13 @@ ORACLES = [cluster.election_safety]
 
 def check(run):
     run.cov['trusted_base'] += [
+        "refinement check (dvlib/refine.py + DE.ARExec): every simulated execution is replayed inside Coq, label by label, as an execution of DE.AbstractRaft from ainit (aexec, proved sound w.r.t. astep: Refine_exec_sound / Refine_trace_reaches) and the abstract state is compared with the observed terms (concrete = abstract + 1), logs and commit indexes of all nodes after every step; trusted: the observation function (obs_matches, highest-commit-index-held for a restarted node) and the probe; the label reconstruction is only a proposal that Coq accepts or refuses; steps without abstract counterpart are counted per documented class in evidence.outside_abstract_system",
         "hand-written node model DE.Election (vote/term/role handling of the role states, ElectionHandler and Raft::handle_internal_event), tied to the code by the node-level correspondence of the `cluster` probe (hooks Raft::verif_*)",
         "abstract system DE.AbstractRaft: its guards (vote once per term, leader backed by a strict majority of grants, up-to-date check) are the obligations the node model is proved to meet; the refinement concrete cluster -> abstract system is argued in DESIGN.md and validated on the simulated executions, not proved",
         "harness cluster simulator: real Raft objects, real BufferedRaftLog, MockMembership with a static voter set, simulated transport; real-time election timers (5-10 ms)",
     ]
     run.assumptions += ["static membership (membership changes: C26)", "persistent state survives restarts (state loss on kill: C02/C21 known findings)"]
-    return cluster.check_cluster_property(run, PROPS_FILE, CONE, ORACLES, kills=False, histories=True)
+    return cluster.check_cluster_property(run, PROPS_FILE, CONE, ORACLES, kills=False, histories=True, refine=True)
 
 def replay(path): return cluster.replay_cluster(path, ORACLES)
 
